@@ -1537,7 +1537,9 @@ impl<T: Storage> Raft<T> {
                     // not beyond ours: otherwise a stale leader of our own, older term would take
                     // the "index = committed" answer to its appends as an acknowledgement of
                     // entries we do not hold.
-                    if m.get_msg_type() != MessageType::MsgRequestPreVote || m.term <= self.term + 1 {
+                    if m.get_msg_type() != MessageType::MsgRequestPreVote
+                        || m.term <= self.term.saturating_add(1)
+                    {
                         self.maybe_commit_by_vote(&m);
                     }
                 }
